@@ -108,11 +108,11 @@ Print Assumptions C16_complete_time_partial.
 
 (** The hypothesis [avail_on_time] holds for the exact ceiling of the availability instant
     (what math.Ceil computes when the float64 error does not reach the next integer). *)
-Theorem C16_exact_avail_on_time : forall reps r loopMS segDur c timeline test dur chunked atoMS,
+Theorem C16_exact_avail_on_time : forall reps r loopMS segDur c timeline test dur chunked cc atoMS,
   wf r loopMS -> startNr c = 0 -> ato c = Some atoMS -> 0 <= atoMS ->
   avail_on_time {| sc_reps := reps; sc_ref := r; sc_loopMS := loopMS; sc_segDurMS := segDur; sc_cfg := c;
                    sc_timeline := timeline; sc_test := test; sc_dur := dur; sc_chunked := chunked;
-                   sc_avail := availMS_exact r loopMS c |}.
+                   sc_catchup_checks := cc; sc_avail := availMS_exact r loopMS c |}.
 Proof. exact exact_on_time. Qed.
 Print Assumptions C16_exact_avail_on_time.
 
